@@ -56,12 +56,12 @@ def budget(seconds=None, grow_gb=3.0):
         signal.signal(signal.SIGALRM, old)
 
 
-def run_isolated(module, func, args_list, timeout=90, workers=8, retries=1):
+def run_isolated(module, func, args_list, timeout=90, workers=8, retries=2):
     """Run harness.drivers.<module>.<func>(arg) for every arg in its own fresh, single-threaded interpreter.
 
     Used for everything that forks worker pools (multiprocessing from a clean process, never from the harness process) and
     guarded by a timeout: returns a list with the result, or None where the call did not finish within `timeout` seconds
-    even when retried (the caller counts those as inconclusive; they never raise an alarm)."""
+    in any of `retries` + 1 attempts (the last one with twice the time); the caller decides what an unfinished program means."""
     import concurrent.futures as cf
     import json
     import subprocess
@@ -74,12 +74,13 @@ def run_isolated(module, func, args_list, timeout=90, workers=8, retries=1):
     env.setdefault("PYTHONHASHSEED", "0")
 
     def one(arg):
-        for _ in range(retries + 1):
+        for attempt in range(retries + 1):
+            tmo = timeout * (2 if attempt == retries and retries else 1)
             try:
                 p = subprocess.Popen([sys.executable, "-c", code], stdin=subprocess.PIPE, stdout=subprocess.PIPE,
                                      stderr=subprocess.PIPE, text=True, env=env, start_new_session=True)
                 try:
-                    out, err = p.communicate(json.dumps(arg), timeout=timeout)
+                    out, err = p.communicate(json.dumps(arg), timeout=tmo)
                 except subprocess.TimeoutExpired:
                     try:
                         os.killpg(p.pid, 9)      # the whole process group: pool workers too
